@@ -113,6 +113,9 @@ type edObj struct {
 	// keyed: declared by a key statement of its own (not merely created as a connection
 	// endpoint or as the container on a dotted path)
 	keyed bool
+	// noFix: never labelled by fixup (stays an implicit object that only exists through the
+	// dotted path of a connection endpoint)
+	noFix bool
 }
 
 func newEdBoard() *edBoard {
@@ -557,6 +560,28 @@ func edEdgeKey(src, dst []string, a string) string {
 
 func (g *edGen) edgeStmt(w *edW, b *edBoard, scope []string, d int) {
 	r := g.r
+	if len(scope) == 0 && r.P(0.07) {
+		// a chain whose inner node sits under containers that exist only through this dotted
+		// path (`x -> p.q.c -> y`): relocating c must keep p and p.q alive
+		_, x := g.relPath(b, scope, false)
+		_, y := g.relPath(b, scope, false)
+		pn := fmt.Sprintf("im%d", g.nLabel)
+		mid := []string{pn, "q", "c"}
+		if len(x) == 1 && len(y) == 1 && !b.underClosed(x) && !b.underClosed(y) && b.objs[edPathKey(mid[:1])] == nil {
+			b.ensure(x)
+			b.ensure(y)
+			b.ensure(mid)
+			for i := 1; i <= 3; i++ {
+				b.objs[edPathKey(mid[:i])].noFix = true
+			}
+			a1, a2 := Pick(r, []string{"->", "--"}), Pick(r, []string{"->", "<-"})
+			b.edges[edEdgeKey(x, mid, a1)]++
+			b.edges[edEdgeKey(mid, y, a2)]++
+			w.line(d, edRel(x)+" "+a1+" "+edRel(mid)+" "+a2+" "+edRel(y))
+			g.feat["chain-through-implicit-containers"] = true
+			return
+		}
+	}
 	if r.P(0.08) {
 		_, x := g.relPath(b, scope, false)
 		_, y := g.relPath(b, scope, false)
@@ -707,6 +732,9 @@ func (g *edGen) fixup(w *edW, b *edBoard, d int, inherited *edBoard) {
 			if io := inherited.objs[k]; io != nil && io.labelled {
 				continue
 			}
+		}
+		if o.noFix {
+			continue
 		}
 		if !o.keyed && g.r.P(0.2) {
 			// stays an object that exists only through connections / dotted paths (no key
